@@ -216,6 +216,54 @@ def region_sig(rng, rid):
     raise KeyError(rid)
 
 
+def named_stack_struct(size, flavour):
+    """a by-value struct of exactly `size` bytes (9..24): flavour 0 = char array (alignment 1), 1 = ints / longs where the
+    size allows it (12 = int x3, 16 = long+int+pad.., 20 = int x5, 24 = long x3), else char array"""
+    if flavour == 1:
+        if size % 8 == 0:
+            return G.struct_of(*([G.LONG] * (size // 8)))
+        if size % 4 == 0:
+            return G.struct_of(G.arr(G.INT, size // 4))
+        if size % 2 == 0:
+            return G.struct_of(G.arr(G.SHORT, size // 2))
+    return G.struct_of(G.arr(G.CHAR, size))
+
+
+def va_stack_sigs(rng, thorough):
+    """variadic callees whose named parameters end on the stack at an address that is not a multiple of 8: a by-value
+    struct of 9..24 bytes that is MEMORY class (> 16 bytes) or spills because the registers are used up, followed by variadic
+    arguments fetched from the overflow area (ints, doubles, long double, structs).  overflow_arg_area must start at the
+    end of the named stack parameters *rounded up to an eightbyte*."""
+    I, L, D, LD = G.INT, G.LONG, G.DBL, G.LDBL
+    tails = [
+        lambda: [L] * 7,                                   # runs through the remaining GP registers into the overflow area
+        lambda: [D] * 9 + [I],
+        lambda: [I, D] * 7,
+        lambda: [L] * 6 + [G.struct_of(L, L, L), I, D],     # a MEMORY-class struct among the variadic arguments
+        lambda: [L] * 6 + [G.struct_of(L), G.struct_of(I, I, I), L],   # small structs after the GP registers are gone: on the stack
+        lambda: [L] * 6 + [LD, I],
+        lambda: [LD, L, L, L, L, L, L, L],
+    ]
+    cells = []
+    for size in range(9, 25):
+        for flavour in (0, 1):
+            for prefix in (0, 5, 6):
+                for after in (0, 1):                       # an int named parameter after the struct (the usual `int n, ...`)
+                    cells.append((size, flavour, prefix, after))
+    must = [c for c in cells if c[0] in (12, 20) and c[3] == 1] + [c for c in cells if c[0] in (9, 17, 23) and c[1] == 0 and c[3] == 0]
+    if not thorough:
+        rest = [c for c in cells if c not in must]
+        rng.shuffle(rest)
+        cells = must + rest[:12]
+    out = []
+    for (size, flavour, prefix, after) in cells:
+        named = [L] * prefix + [named_stack_struct(size, flavour)] + ([I] if after else [])
+        for tail in (tails if thorough else [tails[rng.randrange(len(tails))], tails[0]]):
+            va = tail()
+            out.append(Sig(rng.choice([None, L]), named + va, n_named=len(named), variadic=True, depth=rng.choice([0, 0, 1])))
+    return out
+
+
 def gen_sigs(ctx):
     """[(tag, Sig)]"""
     rng = ctx.rng
@@ -250,6 +298,8 @@ def gen_sigs(ctx):
             out.append((f'boundary:{k}', boundary_sig(rng, g, f, k, variadic=va, depth=rng.choice([0, 0, 1, 2]))))
     for _ in range(400 if ctx.thorough else 50):
         out.append(('random', random_sig(rng)))
+    for sg in va_stack_sigs(rng, ctx.thorough):
+        out.append(('va-named-stack', sg))
     for rid in KNOWN_IDS:
         for _ in range(6 if ctx.thorough else 2):
             out.append(('region', region_sig(rng, rid)))
